@@ -70,6 +70,7 @@ PINS = [
     ("androguard/core/dex/__init__.py", "get_optimized_instruction"),
     ("androguard/core/dex/__init__.py", "DalvikPacker"),
     ("androguard/core/dex/__init__.py", "LinearSweepAlgorithm.get_instructions"),
+    ("androguard/core/dex/__init__.py", "DCode.get_instructions"),
 ]
 
 _R = {}
@@ -436,6 +437,13 @@ def run(ck: Check):
         run_stream(ck, drv, "first-unit", gen_first_unit_sweep(ck))
     run_stream(ck, drv, "spec-valid", gen_spec_valid(ck))
     run_via_sweep(ck, (not ck.quick) or ck.escalated)
+    # the same decoders behind a real DCode object, queried repeatedly: an unused opcode / bad pad byte / truncated
+    # instruction must stay rejected and get_raw() must keep re-encoding to the input on every later query (C02's history stream)
+    from harness.props import c02
+    c02._real()
+    c02.run_histories(ck, None, 3000 if ((not ck.quick) or ck.escalated) else 200)
+    ck.notes.append("history stream (shared with C02): 3-10 queries on ONE DCode object over valid and invalid code; every answer "
+                    "must equal that of a fresh DCode on the same bytes, i.e. a pure function of the bytes as in the Lean model")
     run_stream(ck, drv, "truncated", gen_truncated(ck))
     run_stream(ck, drv, "classes", gen_classes(ck), judged=False)
     ck.assumptions.append("struct.pack/unpack (little-endian standard sizes B b H h I i q) modelled as AgVerif.Insn.pack/unpack; "
@@ -452,6 +460,9 @@ def replay(ck: Check, rp):
     c = rp.get("case") or rp.get("first_divergence") or {}
     rq = c.get("request")
     print("replay", c)
+    if c.get("history"):
+        from harness.props import c02
+        return c02.replay(ck, rp)
     if c.get("via_sweep"):
         from harness.props import c02
         lb = c["via_sweep"]
